@@ -138,7 +138,8 @@ class FnTir:
         self.fn = f.fn(name)
         self.body = nhir(f, name)
         self.sinks = {}        # local name -> "writer" | "buffer"
-        self.env = {}          # local name -> expr node (init of an immutable let) for string values
+        self.env = {}          # local name -> string-TIR of its initialiser, evaluated at the let (scoping/shadowing respected)
+        self.env_expr = {}     # local name -> initialiser expression (latest binding; for guards that mention a local)
         self.params = []
         self.unknown = []      # constructs outside the supported fragment (reported by rules that depend on them)
         for p in self.fn.get("params") or []:
@@ -209,15 +210,17 @@ class FnTir:
                 if pat.get("k") == "bind" and pat.get("mut"):
                     pass    # a mutable local (counter, flag): its value at a use site is not its initialiser
                 elif pat.get("k") == "bind":
-                    self.env[pat["name"]] = init
+                    self.env[pat["name"]] = self.S(init)
+                    self.env_expr[pat["name"]] = init
                 elif pat.get("k") == "tuple" and pi.get("k") == "tuple" and len(pi["es"]) == len(pat["subs"]):
                     for s, x in zip(pat["subs"], pi["es"]):
                         if s.get("k") == "bind":
-                            self.env[s["name"]] = x
+                            self.env[s["name"]] = self.S(x)
+                            self.env_expr[s["name"]] = x
                 elif pat.get("k") == "tuple":
                     for i, s in enumerate(pat["subs"]):
                         if s.get("k") == "bind":
-                            self.env[s["name"]] = {"k": "tuple_field", "base": init, "idx": i, "ty": None, "sp": init.get("sp")}
+                            self.env[s["name"]] = ("hole", "UNKNOWN", {"what": "%s.%d" % (text(init), i), "of": init, "idx": i}, init.get("sp"))
             if e.get("els") is not None:
                 items.append(("alt", [({"text": "let-else matched", "e": e, "taken": True}, ("seq", [])),
                                       ({"text": "let-else failed", "e": e, "taken": False}, self.W(e["els"]))]))
@@ -226,6 +229,8 @@ class FnTir:
             pre = self.W(e["cond"])
             th = self.W(e["then"])
             el = self.W(e["else"]) if e.get("else") is not None else ("seq", [])
+            if not has_effects(th) and not has_effects(el):
+                return pre
             return ("seq", [pre, ("alt", [(self.guard(e["cond"], True), th), (self.guard(e["cond"], False), el)])])
         if k == "let":
             return self.W(e["init"])
@@ -258,6 +263,8 @@ class FnTir:
                 arms.append((g, self.W(arm["body"])))
             if "TryDesugar" in src:
                 # `x?` : continue arm has no effect; break arm returns
+                return pre
+            if not any(has_effects(a) for _, a in arms):
                 return pre
             return ("seq", [pre, ("alt", arms)])
         if k == "loop":
@@ -407,7 +414,7 @@ class FnTir:
             if nm in self.sinks and self.sinks[nm] == "buffer":
                 return ("buf", nm)
             if nm in self.env:
-                return self.S(self.env[nm], depth + 1)
+                return self.env[nm]
             return self.hole_for(e, "local " + nm)
         if k == "tuple_field":
             return ("hole", "UNKNOWN", {"what": "%s.%d" % (text(e["base"]), e["idx"]), "of": e["base"], "idx": e["idx"]}, e.get("sp"))
@@ -415,8 +422,9 @@ class FnTir:
             return self.hole_for(e, text(e))
         if k == "block":
             for s in e.get("stmts") or []:
-                if s.get("k") == "stmt_let" and s["pat"].get("k") == "bind" and s.get("init") is not None:
-                    self.env[s["pat"]["name"]] = s["init"]
+                if s.get("k") == "stmt_let" and s["pat"].get("k") == "bind" and s.get("init") is not None and not s["pat"].get("mut"):
+                    self.env[s["pat"]["name"]] = self.S(s["init"], depth + 1)
+                    self.env_expr[s["pat"]["name"]] = s["init"]
             if e.get("expr") is not None:
                 return self.S(e["expr"], depth + 1)
         if k == "if":
@@ -512,6 +520,20 @@ class FnTir:
         return ("hole", "DISPLAY", {"what": what, "ty": t}, sp)
 
 
+def has_effects(E):
+    """writes or control transfers (ret/break/continue); pure `diverge` in value position is kept by S()"""
+    k = E[0]
+    if k in ("w", "ret", "break", "continue"):
+        return True
+    if k == "seq":
+        return any(has_effects(x) for x in E[1])
+    if k == "alt":
+        return any(has_effects(x) for _, x in E[1])
+    if k == "loop":
+        return has_effects(E[1])
+    return False
+
+
 def has_writes(E):
     k = E[0]
     if k == "w":
@@ -583,7 +605,8 @@ def show(S, depth=0):
     if k == "lit":
         return repr(S[1])
     if k == "hole":
-        return "<%s %s>" % (S[1], (S[2] or {}).get("what", ""))
+        d = S[2] or {}
+        return "<%s %s%s>" % (S[1], d.get("what", ""), (":" + d["ty"]) if S[1] in ("DISPLAY", "NUM") and d.get("ty") else "")
     if k == "seq":
         return " ".join(show(x, depth + 1) for x in S[1])
     if k == "alt":
@@ -607,3 +630,107 @@ def show(S, depth=0):
     if k == "reset":
         return "^reset"
     return str(k)
+
+
+def flow(S, states, atom_fn, depth=0):
+    """Forward dataflow over a string-TIR: `states` is a frozenset of abstract states; atom_fn(state, atom) returns an
+    iterable of successor states (it may record findings).  alt = union of branches, loop = least fixpoint (0+ iterations).
+    Control atoms (ctl/diverge) end the flow of the current branch (over-approximated: states are dropped)."""
+    k = S[0]
+    if k == "seq":
+        for x in S[1]:
+            states = flow(x, states, atom_fn, depth + 1)
+            if not states:
+                break
+        return states
+    if k == "alt":
+        out = set()
+        for g, x in S[1]:
+            out |= flow(x, states, atom_fn, depth + 1)
+        return frozenset(out)
+    if k in ("loop", "star", "star1"):
+        cur = set(states)
+        for _ in range(50):
+            nxt = set(flow(S[1], frozenset(cur), atom_fn, depth + 1)) | cur
+            if nxt == cur:
+                break
+            cur = nxt
+        return frozenset(cur)
+    if k == "sepby":
+        cur = set(states)
+        for _ in range(50):
+            a = flow(S[1], frozenset(cur), atom_fn, depth + 1)
+            b = flow(S[2], a, atom_fn, depth + 1)
+            nxt = set(a) | set(b) | cur
+            if nxt == cur:
+                break
+            cur = nxt
+        return frozenset(cur)
+    if k in ("ctl", "diverge"):
+        return frozenset()
+    out = set()
+    for st in states:
+        out |= set(atom_fn(st, S))
+    return frozenset(out)
+
+
+def atoms(S):
+    """every atom (lit/hole/call/callv/buf) of a string-TIR, in syntactic order"""
+    k = S[0]
+    if k == "seq":
+        for x in S[1]:
+            yield from atoms(x)
+    elif k == "alt":
+        for _, x in S[1]:
+            yield from atoms(x)
+    elif k in ("loop", "star", "star1"):
+        yield from atoms(S[1])
+    elif k == "sepby":
+        yield from atoms(S[1])
+        yield from atoms(S[2])
+    elif k in ("ctl", "diverge", "reset"):
+        return
+    else:
+        yield S
+
+
+def sink_fns(f, include_tests=False):
+    """names of all functions that have at least one text sink (writer parameter or local buffer written to)"""
+    out = []
+    for name, fn in f.fns.items():
+        if fn.get("kind") != "fn" or fn.get("hir") is None:
+            continue
+        if not include_tests and ("::tests::" in name or "::test::" in name or "::tests_" in name):
+            continue
+        try:
+            t = fn_tir(f, name)
+        except Exception as e:   # extraction error: reported by the caller
+            out.append((name, None, e))
+            continue
+        if t.sinks and has_writes(t.effects):
+            out.append((name, t, None))
+    return out
+
+
+def expand_paths(S, limit=4096):
+    """all linear paths of a loop-free string-TIR: [(guards, [atoms])]; raises Anchor on loops or explosion"""
+    k = S[0]
+    if k == "seq":
+        paths = [([], [])]
+        for x in S[1]:
+            sub = expand_paths(x, limit)
+            paths = [(g + g2, a + a2) for g, a in paths for g2, a2 in sub]
+            if len(paths) > limit:
+                raise Anchor("path explosion in TIR")
+        return paths
+    if k == "alt":
+        out = []
+        for g, x in S[1]:
+            for g2, a2 in expand_paths(x, limit):
+                out.append(([g] + g2, a2))
+        return out
+    if k in ("loop", "star", "star1", "sepby"):
+        raise Anchor("loop in a TIR expected to be loop-free")
+    if k in ("ctl", "diverge"):
+        return [([], [S])]
+    return [([], [S])]
